@@ -1,7 +1,7 @@
 #!/bin/bash
 # Harmless-edit corpus: semantics-preserving edits must keep the checks quiet (exit 0; exit 2 = undecided is tolerated
 # and reported). usage: tools/harmless.sh
-cd /verif
+cd "$(dirname "$0")/.."
 run() { # name relpath python-edit-expression props...
   name=$1; rel=$2; edit=$3; shift 3
   D=$(mktemp -d /tmp/harmXXXX); git -C /repo archive HEAD | tar -x -C $D
